@@ -295,20 +295,20 @@ Section CopyUnfrozen.
       as [l' [d' [-> [Hfresh [Hcell [Hkeys [Hflat' [Habs [Hfail Hsame]]]]]]]]].
     exists l', d', s2. split; [exact Hdc|]. split; [exact Hfresh|]. split; [exact Hcell|]. split.
     { exact (eq_ind _ (fun l0 => NoDup l0) Hd _ (eq_sym Hkeys)). }
-    split; [rewrite !absv_unfold; exact Habs|]. split; [exact (aok_flat _ l' c d' Hcell Hflat')|].
+    split; [unfold absv; exact Habs|]. split; [exact (aok_flat _ l' c d' Hcell Hflat')|].
     split; [now rewrite Hfail|exact Hsame].
   Qed.
 
   Lemma spec_copy_is_inplace hp ahc ahi x' :
     x' = X -> ah_if ahc = true -> ah_inplace ahc = false -> ah_if ahi = true ->
     match hp with SSetAttrOp _ | SDelAttrOp _ => False | _ => True end ->
-    spec_unfrozen ct h0 x' hp ahc = spec_unfrozen ct h0 x' hp ahi ->
+    (forall x, spec_unfrozen ct h0 x hp ahc = spec_unfrozen ct h0 x hp ahi) ->
     spec_helper ct h0 X hp ahc = spec_helper ct h0 x' hp ahi.
   Proof.
     intros -> Hifc Hinc Hifi Hhp E.
     rewrite (spec_helper_copy ct h0 l c d s Hl hp ahc Hifc Hinc Hhp).
     rewrite (spec_helper_inplace_unfrozen ct h0 l c d k s Hl Hc Hfz hp ahi Hifi).
-    rewrite (absv_recv l c d s Hl) in E. exact E.
+    apply E.
   Qed.
 
   (* ---- reset_<a>() ---- *)
@@ -336,7 +336,7 @@ Section CopyUnfrozen.
       unfold bind. rewrite !(thawed_unfrozen ct l' _ _ s2 c d' k Hcell Hc Hfz). reflexivity. }
     rewrite Hrun.
     rewrite (spec_copy_is_inplace (SReset a) ah (mkah [] true true AMissing false None None [] None)
-               (absv (heap s2) (VRef l')) Habs eq_refl eq_refl eq_refl I eq_refl).
+               (absv (heap s2) (VRef l')) Habs eq_refl eq_refl eq_refl I (fun x => eq_refl)).
     pose proof (reset_scalar_inplace_refines ct h0 l' a c d' k sp s2 Hcell Hc Ha Hd' Hok' Hfz Hni Hfa2 Hty Hnc Hp Hlit Hdv) as H.
     cbv zeta in H.
     destruct (run_helper ct l' (HReset a) (mkh [] true true VMissing false None None [] None) s2) as [[r|e] s'].
@@ -368,7 +368,7 @@ Section CopyUnfrozen.
       unfold bind. now rewrite (thawed_unfrozen ct l' _ _ s2 c d' k Hcell Hc Hfz). }
     rewrite Hrun.
     rewrite (spec_copy_is_inplace SUpdateTop ah (mkah [] true true AMissing false None (Some (akw (p0 :: ps))) [] None)
-               (absv (heap s2) (VRef l')) Habs eq_refl eq_refl eq_refl I eq_refl).
+               (absv (heap s2) (VRef l')) Habs eq_refl eq_refl eq_refl I (fun x => eq_refl)).
     pose proof (update_top_inplace_refines ct h0 l' c k Hc Hfz Hni d' s2 p0 ps Hcell Hd' Hok' Hfa2 Hkws) as H.
     cbv zeta in H.
     destruct (run_helper ct l' HUpdateTop (mkh [] true true VMissing false None (Some (p0 :: ps)) [] None) s2) as [[r|e] s'].
